@@ -90,74 +90,44 @@ def isTrue (z : C) : Bool := z != 0
 /-- |z| when it is rational -/
 def absExact? (z : C) : Option Rat := ratSqrt? z.normSq
 
-/-- NumPy `floor_divide` on real numbers -/
-def floorDiv (a b : C) : C := CRat.ofRat ((a.re / b.re).floor : Int)
-
-/-- element-wise binary operations of Field._binary_op; `none` = not supported on these inputs by the model -/
-def elemOp (name : String) : Option ((C → C → C) × (DT → DT → DT)) :=
-  let prom : DT → DT → DT := max
-  let cmp : DT → DT → DT := fun _ _ => DT.bool
+def binOfName (name : String) : Option BinOp :=
   match name with
-  | "add" => some (fun a b => a + b, prom)
-  | "sub" => some (fun a b => a - b, prom)
-  | "mul" => some (fun a b => a * b, prom)
-  | "truediv" => some (fun a b => a * b⁻¹, fun x y => max (max x y) DT.float)
-  | "floordiv" => some (floorDiv, prom)
-  | "pow" => some (fun a b => npow a b.re.num.toNat, prom)
-  | "lt" => some (fun a b => b2c (CRat.lt a b), cmp)
-  | "le" => some (fun a b => b2c (CRat.le a b), cmp)
-  | "gt" => some (fun a b => b2c (CRat.lt b a), cmp)
-  | "ge" => some (fun a b => b2c (CRat.le b a), cmp)
-  | "eq" => some (fun a b => b2c (a == b), cmp)
-  | "ne" => some (fun a b => b2c (a != b), cmp)
+  | "add" => some .add | "sub" => some .sub | "mul" => some .mul | "truediv" => some .truediv
+  | "floordiv" => some .floordiv | "pow" => some .pow | "lt" => some .lt | "le" => some .le
+  | "gt" => some .gt | "ge" => some .ge | "eq" => some .eq | "ne" => some .ne
   | _ => none
 
-/-- argument checks NumPy performs before an element-wise operation (error kinds) -/
-def elemGuard (name : String) (dta dtb : DT) (bvals : List C) : Option String :=
-  if name == "floordiv" && (dta == DT.complex || dtb == DT.complex) then some "TypeError"
-  else if name == "pow" && dta ≤ DT.int && dtb ≤ DT.int && bvals.any (fun b => b.re < 0) then some "ValueError"
-  else if name == "pow" && bvals.any (fun b => b.im != 0 || b.re.den != 1 || b.re < 0) then some "model-unsupported"
-  else if (name == "truediv" || name == "floordiv") && bvals.any (fun b => b == 0) then some "model-unsupported"
-  else none
-
-def fieldBin (name : String) (rev : Bool) (f g : Fld C) : Except String (Fld C) :=
-  match elemOp name with
+/-- Field._binary_op with a Field operand: Model.fieldBin on exact complex rationals -/
+def fieldBinN (name : String) (rev : Bool) (f g : Fld C) : Except String (Fld C) :=
+  match binOfName name with
   | none => .error "bad-op"
-  | some (op, dt) =>
-    if g.dom ≠ f.dom then .error "ValueError" else
-    let (a, b) := if rev then (g, f) else (f, g)
-    match elemGuard name a.dt b.dt ((allIdx b.sizes).map b.val) with
-    | some e => .error e
-    | none => if rev then binop (fun x y => op y x) (fun x y => dt y x) f g else binop op dt f g
+  | some o => fieldBin CRat.elemOps o rev f g
 
-def fieldBinScalar (name : String) (rev : Bool) (f : Fld C) (c : C) (cdt : DT) : Except String (Fld C) :=
-  match elemOp name with
+def fieldBinScalarN (name : String) (rev : Bool) (f : Fld C) (c : C) (cdt : DT) : Except String (Fld C) :=
+  match binOfName name with
   | none => .error "bad-op"
-  | some (op, dt) =>
-    let g : Except String Unit :=
-      if rev then (match elemGuard name cdt f.dt ((allIdx f.sizes).map f.val) with | some e => .error e | none => .ok ())
-      else (match elemGuard name f.dt cdt [c] with | some e => .error e | none => .ok ())
-    match g with
-    | .error e => .error e
-    | .ok _ =>
-      -- a Python scalar does not promote an array of the same or a higher kind (NEP 50): int field * 2.5 -> float
-      if rev then .ok (binopScalar (fun x y => op y x) (fun x y => dt y x) f c cdt)
-      else .ok (binopScalar op dt f c cdt)
+  | some o => fieldBinScalar CRat.elemOps o rev f c cdt
 
-def fieldUn (name : String) (f : Fld C) : Res :=
+def unOfName (name : String) : Option UnOp :=
   match name with
-  | "neg" => .fld (unop (fun x => -x) id f) false
-  | "pos" => .same
-  | "conjugate" => if f.dt == DT.complex then .fld (unop CRat.conj id f) false else .same
-  | "real" => if f.dt == DT.complex then .fld (unop (fun x => ⟨x.re, 0⟩) (fun _ => DT.float) f) false else .same
-  | "imag" => if f.dt == DT.complex then .fld (unop (fun x => ⟨x.im, 0⟩) (fun _ => DT.float) f) false else .err "ValueError"
+  | "neg" => some .neg | "pos" => some .pos | "conjugate" => some .conjugate | "real" => some .real
+  | "imag" => some .imag | _ => none
+
+def fieldUnN (name : String) (f : Fld C) : Res :=
+  match name with
   | "abs" =>
     let vals := (allIdx f.sizes).map f.val
-    let dt : DT → DT := fun d => if d == DT.complex then DT.float else d
     if vals.all (fun z => (absExact? z).isSome) then
-      .fld (unop (fun z => CRat.ofRat ((absExact? z).getD 0)) dt f) false
-    else .fld (unop CRat.nsq dt f) true
-  | _ => .err "bad-op"
+      .fld (fieldAbs (fun z => CRat.ofRat ((absExact? z).getD 0)) f) false
+    else .fld (fieldAbs CRat.nsq f) true
+  | _ =>
+    match unOfName name with
+    | none => .err "bad-op"
+    | some o =>
+      if unSame o f.dt then .same else
+      match fieldUn CRat.elemOps o f with
+      | .ok r => .fld r false
+      | .error e => .err e
 
 def absLike (dt : Nat) (sqv : Rat) : Res :=
   match ratSqrt? sqv with
@@ -181,17 +151,38 @@ def fieldNorm (f : Fld C) (ord : String) : Res :=
 /-- result type of ducc0.misc.vdot: a Python float when the imaginary part vanishes, else complex -/
 def duccDt (v : C) : DT := if v.im == 0 then DT.float else DT.complex
 
-def indicator (f : Fld C) : Fld C := { f with val := fun i => b2c (isTrue (f.val i)) }
 
 def sqrtFld (r : Except String (Fld C)) : Res :=
   match r with
   | .error e => .err e
   | .ok f => .fld f true
 
+/-- calls whose `spaces` tuple parse_spaces lets through although it has negative / too large entries -/
+def runDirty (flds : Array (Fld C)) (j : Json) (op : String) (f : Fld C) (li : List Int) : Option Res :=
+  match op with
+  | "weight" => do some (ofExF (dirtyWeight f (← fInt? j "power") li))
+  | "sum" => some (ofExF (dirtySum f li))
+  | "prod" => some (ofExF (dirtyContract f li (max f.dt DT.int) (sProd f)))
+  | "all" => some (ofExF (dirtyContract f li DT.bool (b2c (sAll f))))
+  | "any" => some (ofExF (dirtyContract f li DT.bool (b2c (sAny f))))
+  | "integrate" => some (ofExF (dirtyIntegrate f li))
+  | "mean" => some (ofExF (dirtyMean f li))
+  | "var" => some (ofExF (dirtyVar CRat.nsq f li))
+  | "std" => some (sqrtFld (dirtyVar CRat.nsq f li))
+  | "vdot" => do
+    let g ← flds[(← fNat? j "g")]?
+    some (ofExF ((dirtyVdot CRat.conj f g li).map fun r =>
+      if li.length == f.subs.length then { r with dt := duccDt (r.val []) } else r))
+  | _ => none
+
 def runFieldOp (flds : Array (Fld C)) (j : Json) : Option Res := do
   let op ← fStr? j "op"
   let fi ← fNat? j "f"
   let f ← flds[fi]?
+  let dirty : Option (List Int) :=
+    if ["weight", "sum", "prod", "all", "any", "integrate", "mean", "var", "std", "vdot"].contains op
+    then (parseSpacesJ j "spaces").bind (fun sp => dirtySpaces sp f.subs.length) else none
+  if let some li := dirty then runDirty flds j op f li else
   match op with
   | "weight" => do
     let p ← fInt? j "power"
@@ -205,12 +196,8 @@ def runFieldOp (flds : Array (Fld C)) (j : Json) : Option Res := do
     some (match totalVolume f.subs sp with | .error e => .err e | .ok v => .sc DT.float v false)
   | "sum" => do some (ofExF (fsum f (← parseSpacesJ j "spaces")))
   | "prod" => do some (ofExF (fprod f (← parseSpacesJ j "spaces")))
-  | "all" => do
-    let r := fprod (indicator f) (← parseSpacesJ j "spaces")
-    some (ofExF (r.map fun g => { g with dt := DT.bool }))
-  | "any" => do
-    let r := fsum (indicator f) (← parseSpacesJ j "spaces")
-    some (ofExF (r.map fun g => { g with dt := DT.bool, val := fun i => b2c (isTrue (g.val i)) }))
+  | "all" => do some (ofExF (fall f (← parseSpacesJ j "spaces")))
+  | "any" => do some (ofExF (fany f (← parseSpacesJ j "spaces")))
   | "integrate" => do some (ofExF (integrate f (← parseSpacesJ j "spaces")))
   | "mean" => do some (ofExF (mean f (← parseSpacesJ j "spaces")))
   | "var" => do some (ofExF (var CRat.nsq f (← parseSpacesJ j "spaces")))
@@ -226,30 +213,34 @@ def runFieldOp (flds : Array (Fld C)) (j : Json) : Option Res := do
     some (match sVdot CRat.conj f g with | .error e => .err e | .ok v => .sc (duccDt v) v false)
   | "s_sum" => some (.sc (max f.dt DT.int) (sSum f) false)
   | "s_prod" => some (.sc (max f.dt DT.int) (sProd f) false)
-  | "s_all" => some (.sc DT.bool (b2c (isTrue (sProd (indicator f)))) false)
-  | "s_any" => some (.sc DT.bool (b2c (isTrue (sSum (indicator f)))) false)
+  | "s_all" => some (.sc DT.bool (b2c (sAll f)) false)
+  | "s_any" => some (.sc DT.bool (b2c (sAny f)) false)
+  | "clip" => do
+    let lo : Option C := (fRat? j "lo").map CRat.ofRat
+    let hi : Option C := (fRat? j "hi").map CRat.ofRat
+    some (.fld (fieldClip CRat.elemOps f lo hi ((fNat? j "ldt").getD 0) ((fNat? j "hdt").getD 0)) false)
   | "s_integrate" => some (match sIntegrate f with | .error e => .err e | .ok v => .sc (max f.dt DT.float) v false)
   | "s_mean" => some (match sMean f with | .error e => .err e | .ok v => .sc (max f.dt DT.float) v false)
   | "s_var" => some (match sVar CRat.nsq f with | .error e => .err e | .ok v => .sc DT.float v false)
   | "s_std" => some (match sVar CRat.nsq f with | .error e => .err e | .ok v => .sc DT.float v true)
   | "norm" => do some (fieldNorm f (← fStr? j "ord"))
-  | "un" => do some (fieldUn (← fStr? j "name") f)
+  | "un" => do some (fieldUnN (← fStr? j "name") f)
   | "bin" => do
     let g ← flds[(← fNat? j "g")]?
-    some (ofExF (fieldBin (← fStr? j "name") ((fBool? j "rev").getD false) f g))
+    some (ofExF (fieldBinN (← fStr? j "name") ((fBool? j "rev").getD false) f g))
   | "bins" => do
     let c := crat (← fRat? j "cre") (← fRat? j "cim")
-    some (ofExF (fieldBinScalar (← fStr? j "name") ((fBool? j "rev").getD false) f c (← fNat? j "cdt")))
+    some (ofExF (fieldBinScalarN (← fStr? j "name") ((fBool? j "rev").getD false) f c (← fNat? j "cdt")))
   | "unite" => do
     let g ← flds[(← fNat? j "g")]?
-    some (ofExF (fieldBin "add" false f g))
+    some (ofExF (funite CRat.elemOps f g))
   | "flexible_addsub" => do
     let g ← flds[(← fNat? j "g")]?
-    some (ofExF (fieldBin (if (fBool? j "neg").getD false then "sub" else "add") false f g))
+    some (ofExF (fflex CRat.elemOps f g ((fBool? j "neg").getD false)))
   | "scale" => do
     let c := crat (← fRat? j "cre") (← fRat? j "cim")
     if c == 1 then some .same else
-    some (ofExF (fieldBinScalar "mul" true f c (← fNat? j "cdt")))
+    some (ofExF (fieldBinScalarN "mul" true f c (← fNat? j "cdt")))
   | _ => none
 
 def resOfMF (r : Except String (MFld C)) : Res :=
@@ -272,16 +263,16 @@ def runMFieldOp (mfs : Array (MFld C)) (j : Json) : Option Res := do
     let b ← mfs[(← fNat? j "b")]?
     let name ← fStr? j "name"
     let rev := (fBool? j "rev").getD false
-    some (resOfMF (mbinop (fieldBin name rev) a b))
+    some (resOfMF (mbinop (fieldBinN name rev) a b))
   | "mbins" => do
     let c := crat (← fRat? j "cre") (← fRat? j "cim")
     let name ← fStr? j "name"
     let rev := (fBool? j "rev").getD false
     let cdt ← fNat? j "cdt"
-    some (mapLeavesRes a fun f => ofExF (fieldBinScalar name rev f c cdt))
+    some (mapLeavesRes a fun f => ofExF (fieldBinScalarN name rev f c cdt))
   | "mun" => do
     let name ← fStr? j "name"
-    some (mapLeavesRes a (fieldUn name))
+    some (mapLeavesRes a (fieldUnN name))
   | "ms_vdot" => do
     let b ← mfs[(← fNat? j "b")]?
     let dt := (List.zip a.leaves b.leaves).foldl
@@ -294,13 +285,17 @@ def runMFieldOp (mfs : Array (MFld C)) (j : Json) : Option Res := do
     some (match msVdot CRat.conj a b with
       | .error e => .err e
       | .ok v => .fld { dom := 0, subs := [], dt := dt, val := fun _ => v } false)
-  | "ms_all" => some (.sc DT.bool (b2c (a.leaves.all fun kv => isTrue (sProd (indicator kv.2)))) false)
-  | "ms_any" => some (.sc DT.bool (b2c (a.leaves.any fun kv => isTrue (sSum (indicator kv.2)))) false)
-  | "msize" => some (.sc DT.int (CRat.ofRat ((a.leaves.foldl (fun n kv => n + prodNat kv.2.sizes) 0 : Nat) : Int)) false)
+  | "ms_all" => some (.sc DT.bool (b2c (msAll a)) false)
+  | "ms_any" => some (.sc DT.bool (b2c (msAny a)) false)
+  | "msize" => some (.sc DT.int (CRat.ofRat ((msize a : Nat) : Int)) false)
+  | "mclip" => do
+    let lo : Option C := (fRat? j "lo").map CRat.ofRat
+    let hi : Option C := (fRat? j "hi").map CRat.ofRat
+    some (mapLeavesRes a fun f => .fld (fieldClip CRat.elemOps f lo hi ((fNat? j "ldt").getD 0) ((fNat? j "hdt").getD 0)) false)
   | "mflex" => do
     let b ← mfs[(← fNat? j "b")]?
     let neg := (fBool? j "neg").getD false
-    some (resOfMF (mflex (fieldBin "add" false) (fieldBin "sub" false) (unop (fun x => -x) id) a b neg))
+    some (resOfMF (mflex (fieldBinN "add" false) (fieldBinN "sub" false) (unop (fun x => -x) id) a b neg))
   | "ms_sum" => some (.sc (a.leaves.foldl (fun d kv => max d kv.2.dt) DT.int) (msSum a) false)
   | "mnorm" => do
     match (← fStr? j "ord") with
@@ -311,6 +306,9 @@ def runMFieldOp (mfs : Array (MFld C)) (j : Json) : Option Res := do
   | _ => none
 
 def handle (j : Json) : Json :=
+  match (field? j "setorder").bind intList? with
+  | some l => jObj [("order", jInts (pySetOrder l))]
+  | none =>
   let r : Option Json := do
     let fj ← (field? j "fields").bind getArr?
     let flds ← fj.mapM parseFld
